@@ -43,6 +43,11 @@ def tasks(ctx):
     return filter_tasks(ts)
 
 
+# components whose representation invariants the lemmas above assume in every reachable state (engine/closure.py adds
+# the preservation obligations of all their functions)
+tasks.invariant_packages = ('audio',)
+
+
 def run(tier, seed):
     return run_property("C20", tasks, "proof", tier, seed, BASE_ASSUME + [
         "channel sends are ghost output events; the consumer (speakers) is the environment", "float32 = IEEE binary32, RNE, no FMA (amd64)",
